@@ -21,7 +21,10 @@ import (
 	"github.com/sarchlab/akita/v4/mem/vm"
 	"github.com/sarchlab/akita/v4/sim"
 	"github.com/sarchlab/mgpusim/v4/amd/driver"
+	"github.com/sarchlab/akita/v4/simulation"
 	"github.com/sarchlab/mgpusim/v4/amd/kernels"
+	"github.com/sarchlab/mgpusim/v4/amd/samples/runner/timingconfig"
+	"github.com/sarchlab/mgpusim/v4/amd/sampling"
 	"github.com/sarchlab/mgpusim/v4/amd/timing/rdma"
 
 	"verifharness/vh"
@@ -878,6 +881,86 @@ func genSplit(rng *vh.Rng, i int) SCase {
 	return c
 }
 
+// ---------------------------------------------------------------- routing tables of the timing platform
+
+// RCase is the RDMA address table of one GPU of a timing platform built
+// exactly as the sample runner builds it, with the physical ranges the
+// driver assigns and the destination of sample addresses of every device.
+type RCase struct {
+	GPUType string     `json:"gputype"`
+	NumGPUs int        `json:"num_gpus"`
+	GPU     int        `json:"gpu"` // whose RDMA engine
+	Bank    uint64     `json:"bank"`
+	Mods    []uint64   `json:"mods"`   // owner code of each table entry: 1000 = CPU, 1000+k = GPU k, 0 = other
+	Ranges  [][2]uint64 `json:"ranges"` // driver view: base,size of device 0 (CPU), 1..n
+	Probes  [][4]uint64 `json:"probes"` // device, address, owner code found (0 = lookup panics), 1 if in the device's last page
+	Coq     string     `json:"coq"`
+}
+
+func ownerCode(p sim.RemotePort) uint64 {
+	s := string(p)
+	if s == "CPU" {
+		return 1000
+	}
+	var k int
+	if n, _ := fmt.Sscanf(s, "GPU[%d].", &k); n == 1 {
+		return uint64(1000 + k)
+	}
+	return 0
+}
+
+func routeCases() []RCase {
+	var out []RCase
+	sampling.InitSampledEngine()
+	for _, t := range []string{"r9nano", "mi300a"} {
+		for n := 1; n <= 4; n++ {
+			s := simulation.MakeBuilder().WithoutMonitoring().Build()
+			timingconfig.MakeBuilder().WithSimulation(s).WithNumGPUs(n).WithGPUType(t).Build()
+			d := s.GetComponentByName("Driver").(*driver.Driver)
+			var ranges [][2]uint64
+			for k := 0; k <= n; k++ {
+				b, sz := driver.VerifDeviceRange(d, k)
+				ranges = append(ranges, [2]uint64{b, sz})
+			}
+			for g := 1; g <= n; g++ {
+				comp := s.GetComponentByName(fmt.Sprintf("GPU[%d].RDMA", g)).(*rdma.Comp)
+				c := RCase{GPUType: t, NumGPUs: n, GPU: g, Ranges: ranges, Mods: []uint64{}, Probes: [][4]uint64{}}
+				if bm, ok := comp.RemoteRDMAAddressTable.(*mem.BankedAddressPortMapper); ok {
+					c.Bank = bm.BankSize
+					for _, m := range bm.LowModules {
+						c.Mods = append(c.Mods, ownerCode(m))
+					}
+				}
+				for k := 1; k <= n; k++ {
+					if k == g {
+						continue
+					}
+					base, size := ranges[k][0], ranges[k][1]
+					for _, a := range []uint64{base, base + 64, base + size/2, base + size - 2*4096, base + size - 4096 - 64, base + size - 4096, base + size - 1} {
+						last := uint64(0)
+						if a >= base+size-4096 {
+							last = 1
+						}
+						code := func() (code uint64) {
+							defer func() {
+								if recover() != nil {
+									code = 0
+								}
+							}()
+							return ownerCode(comp.RemoteRDMAAddressTable.Find(a))
+						}()
+						c.Probes = append(c.Probes, [4]uint64{uint64(k), a, code, last})
+					}
+				}
+				c.Coq = fmt.Sprintf("mkRCase %d %s %s", c.Bank, vh.CoqNat(n), vh.CoqNList(c.Mods))
+				out = append(out, c)
+			}
+			s.Terminate()
+		}
+	}
+	return out
+}
+
 // ----------------------------------------------------------------
 
 func main() {
@@ -942,6 +1025,8 @@ func main() {
 			}
 		}
 		result = cases
+	case "route":
+		result = routeCases()
 	default:
 		panic("bad mode")
 	}
